@@ -1,8 +1,7 @@
 /-
   Auxiliary facts for the chain / termination proof of the head loop (`Props/C12.lean`):
-  computation rules of `fetch`, the lookup rule of `updateProv`, the result of a loop that
-  already iterated, and "every head created in a run is still active or has been memoised"
-  (`RH`).  Core Lean only.
+  computation rules of `fetch`, the lookup rule of `updateProv`, the computation rules of the
+  head loop.  Core Lean only.
 -/
 import SalsaVerif.Proofs.CycleSound
 
@@ -120,23 +119,23 @@ theorem isHead_iff {prov : List (Nat × Nat)} {c : Nat} :
 /-! ## computation rules of the head loop -/
 
 section loopRules
-variable (P : Prog) (env : Nat → Nat) (read : Nat → St → Res Fetched) (j : Nat) (outer : Bool)
+variable (P : Prog) (env : Nat → Nat) (read : Nat → St → Res Fetched) (j : Nat)
   (fuel stamp : Nat) (s : St) {v : Nat} {hs : List Nat} {s1 : St}
   (hev : evalM env read (P.node j).body s = .ok (v, hs, s1))
 
 /-- is a cycle head active below the query that is about to complete? -/
-def belowOf (outer : Bool) (s1 : St) : Bool := !outer && s1.stack.tail.any (isHead s1.prov)
+def belowOf (s1 : St) : Bool := s1.stack.tail.any (isHead s1.prov)
 
 /-- the heads a memo of `j` still depends on once `j` is popped. -/
 def hsOf (j : Nat) (hs : List Nat) : List Nat := hs.filter (fun k => k != j)
 
 theorem emi_body_error {e : Panic} (he : evalM env read (P.node j).body s = .error e) :
-    executeMaybeIterate P env read j outer (fuel + 1) stamp s = .error e := by
+    executeMaybeIterate P env read j (fuel + 1) stamp s = .error e := by
   rw [executeMaybeIterate, he]
 
 include hev in
-theorem emi_part (hl : s1.prov.lookup j = none) (hb : belowOf outer s1 = true) :
-    executeMaybeIterate P env read j outer (fuel + 1) stamp s
+theorem emi_part (hl : s1.prov.lookup j = none) (hb : belowOf s1 = true) :
+    executeMaybeIterate P env read j (fuel + 1) stamp s
       = .ok (if (hsOf j hs).isEmpty then v else participantValue P j v, hsOf j hs,
           stCached s1 j (if (hsOf j hs).isEmpty then v else participantValue P j v)
             (hsOf j hs)) := by
@@ -146,8 +145,8 @@ theorem emi_part (hl : s1.prov.lookup j = none) (hb : belowOf outer s1 = true) :
   rfl
 
 include hev in
-theorem emi_final (hl : s1.prov.lookup j = none) (hb : belowOf outer s1 = false) :
-    executeMaybeIterate P env read j outer (fuel + 1) stamp s
+theorem emi_final (hl : s1.prov.lookup j = none) (hb : belowOf s1 = false) :
+    executeMaybeIterate P env read j (fuel + 1) stamp s
       = .ok (v, [], stFinal s1 j v) := by
   unfold belowOf at hb
   rw [executeMaybeIterate, hev]
@@ -156,8 +155,8 @@ theorem emi_final (hl : s1.prov.lookup j = none) (hb : belowOf outer s1 = false)
 
 include hev in
 theorem emi_nested {last : Nat} (hl : s1.prov.lookup j = some last)
-    (hb : belowOf outer s1 = true) :
-    executeMaybeIterate P env read j outer (fuel + 1) stamp s
+    (hb : belowOf s1 = true) :
+    executeMaybeIterate P env read j (fuel + 1) stamp s
       = .ok (cycleFn P j last v, hsOf j hs, stCached s1 j (cycleFn P j last v) (hsOf j hs)) := by
   unfold belowOf at hb
   rw [executeMaybeIterate, hev]
@@ -166,9 +165,9 @@ theorem emi_nested {last : Nat} (hl : s1.prov.lookup j = some last)
 
 include hev in
 theorem emi_conv {last : Nat} (hl : s1.prov.lookup j = some last)
-    (hb : belowOf outer s1 = false)
+    (hb : belowOf s1 = false)
     (hc : converged (cache1Of s1 j (cycleFn P j last v)) s1.prov = true) :
-    executeMaybeIterate P env read j outer (fuel + 1) stamp s
+    executeMaybeIterate P env read j (fuel + 1) stamp s
       = .ok (cycleFn P j last v, [], stConv s1 j (cycleFn P j last v)) := by
   unfold belowOf at hb
   unfold cache1Of at hc
@@ -178,11 +177,11 @@ theorem emi_conv {last : Nat} (hl : s1.prov.lookup j = some last)
 
 include hev in
 theorem emi_iter {last stamp' : Nat} (hl : s1.prov.lookup j = some last)
-    (hb : belowOf outer s1 = false)
+    (hb : belowOf s1 = false)
     (hc : converged (cache1Of s1 j (cycleFn P j last v)) s1.prov = false)
     (hi : SalsaVerif.Gen.Stamp.IterationStamp.increment_iteration stamp = some stamp') :
-    executeMaybeIterate P env read j outer (fuel + 1) stamp s
-      = executeMaybeIterate P env read j true fuel stamp' (stIter s1 j (cycleFn P j last v)) := by
+    executeMaybeIterate P env read j (fuel + 1) stamp s
+      = executeMaybeIterate P env read j fuel stamp' (stIter s1 j (cycleFn P j last v)) := by
   unfold belowOf at hb
   unfold cache1Of at hc
   rw [executeMaybeIterate, hev]
@@ -191,10 +190,10 @@ theorem emi_iter {last stamp' : Nat} (hl : s1.prov.lookup j = some last)
 
 include hev in
 theorem emi_too {last : Nat} (hl : s1.prov.lookup j = some last)
-    (hb : belowOf outer s1 = false)
+    (hb : belowOf s1 = false)
     (hc : converged (cache1Of s1 j (cycleFn P j last v)) s1.prov = false)
     (hi : SalsaVerif.Gen.Stamp.IterationStamp.increment_iteration stamp = none) :
-    executeMaybeIterate P env read j outer (fuel + 1) stamp s
+    executeMaybeIterate P env read j (fuel + 1) stamp s
       = .error ⟨.tooManyIterations, s1.stack⟩ := by
   unfold belowOf at hb
   unfold cache1Of at hc
@@ -204,60 +203,10 @@ theorem emi_too {last : Nat} (hl : s1.prov.lookup j = some last)
 
 end loopRules
 
-/-! ## a loop that already iterated ends converged -/
-
-section
-variable (P : Prog) (env : Nat → Nat)
-
-theorem belowOf_true (s1 : St) : belowOf true s1 = false := rfl
-
-theorem belowOf_false (s1 : St) : belowOf false s1 = s1.stack.tail.any (isHead s1.prov) := by
-  simp [belowOf]
-
-/-- a head loop with `outer = true` (the head already iterated) can only end converged: no
-    provisional state is left and the head itself is final. -/
-theorem loop_outer_spec (hNF : NoFallback P) {read : Nat → St → Res Fetched}
-    (hR : ReadSpec P env read) (j : Nat) (rest : List Nat) :
-    ∀ (fuel stamp : Nat) (s : St) (v : Nat) (hs : List Nat) (s' : St),
-      Inv P env s → s.stack = j :: rest → isHead s.prov j = true →
-      executeMaybeIterate P env read j true fuel stamp s = .ok (v, hs, s') →
-      s'.prov = [] ∧ s'.cache = [] ∧ s'.final.lookup j = some v := by
-  intro fuel
-  induction fuel with
-  | zero => intro stamp s v hs s' _ _ _ h; simp [executeMaybeIterate] at h
-  | succ fuel ih =>
-    intro stamp s v hs s' hI hst hhead h
-    cases hev : evalM env read (P.node j).body s with
-    | error e => rw [emi_body_error P env read j true fuel stamp s hev] at h; cases h
-    | ok r =>
-      obtain ⟨v1, hs1, s1⟩ := r
-      obtain ⟨hI1, hst1, hE1, hrel⟩ := evalM_spec P env hR _ s v1 hs1 s1 hI hev
-      have hst1' : s1.stack = j :: rest := hst1.trans hst
-      have hh1 := isHead_mono hE1 hhead
-      obtain ⟨last, hl⟩ := isHead_iff.mp hh1
-      have hv1 : le v1 (lfp P env j) := by
-        rw [← lfp_step]
-        exact EvalRel.upper (fun c w hw => hI1.avail_le P env hw) hrel
-      have hnew : le (cycleFn P j last v1) (lfp P env j) :=
-        (cycleFn_bounds hNF j last v1).2 _ hv1 (hI1.provLe j last hl)
-      cases hc : converged (cache1Of s1 j (cycleFn P j last v1)) s1.prov with
-      | true =>
-        rw [emi_conv P env read j true fuel stamp s hev hl (belowOf_true s1) hc] at h
-        injection h with h; injection h with e1 h; injection h with e2 e3
-        subst e1; subst e3
-        refine ⟨rfl, rfl, ?_⟩
-        rw [stConv_final, cv1_self]; rfl
-      | false =>
-        cases hi : SalsaVerif.Gen.Stamp.IterationStamp.increment_iteration stamp with
-        | none =>
-          rw [emi_too P env read j true fuel stamp s hev hl (belowOf_true s1) hc hi] at h
-          cases h
-        | some stamp' =>
-          rw [emi_iter P env read j true fuel stamp s hev hl (belowOf_true s1) hc hi] at h
-          exact ih stamp' _ v hs s'
-            (iterate_inv P env s1 j rest _ hI1 hst1' hnew (by rw [hl]; rfl)) hst1'
-            (isHead_stIter s1 j _ (by rw [hl]; rfl)) h
-
-end
+theorem belowOf_false_iff (s1 : St) (rest : List Nat) (j : Nat) (hst : s1.stack = j :: rest) :
+    belowOf s1 = false ↔ ∀ k ∈ rest, isHead s1.prov k = false := by
+  unfold belowOf
+  rw [hst]
+  simp [List.any_eq_false]
 
 end SalsaVerif.Proofs.Cycle
